@@ -575,7 +575,8 @@ func judgeC16(c *core.Case, cfg *core.Config) core.Verdict {
 			if f.PkgPath != "" || f.Anonymous || inner.Kind() != reflect.Struct {
 				continue
 			}
-			sub := map[string]bool{"Nope": true}
+			// besides the member's own names, names that exist in OTHER catalogue types of the same printed name
+			sub := map[string]bool{"Nope": true, "Name": true, "Title": true, "X": true, "D": true, "Pub": true, "Rate": true, "W": true}
 			c16AllNames(ft, sub, 0)
 			subs := make([]string, 0, len(sub))
 			for n := range sub {
